@@ -25,11 +25,26 @@ CLAIMED = {
    note="Translator harness/extract.py trusted to print what the live functions return (purity smoke-checked by evaluating twice in opposite orders); ids also exercised through the real reactors' dicts. 9 known collisions on supported snapshot versions are listed in known_findings.json.",
    technique="total tabulation by translator + Lean 4 kernel decision (decide +kernel) + generic Lean proof",
    design="5/C06"),
+ 'C08': dict(
+   text="Lean model of initglobals (ordered-dict update-or-append, first-occurrence index, release recogniser) and of the five ConnectionContext predicates; theorems for ALL record lists: derived tables are exactly the order-preserving duplicate-free projections, index = position of first occurrence (injective), 'earlier' is a strict total order coinciding with list position, the five predicates are mutually consistent (as equalities of results incl. the unknown-version error), init is idempotent and independent of previous state, all of it after run-time extension with old indices unchanged. On the ACTUAL data: model(live records) = live tables, ordinary numbers strictly increasing, supported list chronological — decided in the kernel over a file regenerated from the running module on every run. Correspondence: the real initglobals on random record lists/extension histories and the real predicates on all pairs.",
+   note="The regex \\d+(\\.\\d+)+$ is mirrored by an explicit recogniser restricted to ASCII digits (Python's \\d also matches other Unicode decimal digits: documented restriction), tied to re.match by correspondence only.",
+   technique="Lean 4 proof (fold closed forms) + kernel-checked instantiation on tabulated live data + correspondence",
+   design="5/C08"),
  'C09': dict(
    text="Lean model of constructor resolution, connect plan, status evaluation, mismatch message and the plain status reactor; theorems for ALL environments, allowed sets, defaults and replies: connect v only for an allowed reported v or the default on {no version, no protocol key, closed}; disallowed n gives a mismatch naming n with the supported flag correct; empty object invalid; single allowed version => no query; unsupported/unknown refused at construction; handshake fields; status handler exactly once, ping iff requested, latency >= 0 on a monotone clock, one disconnect, exit callback once. Correspondence on the sequential simnet against an independent stand-in server (constructor inputs, negotiation scenarios over the live version tables, four status handler modes).",
    note="Non-integer protocol values in the reply are outside the property's quantifier (the model returns what Python does for integers only). Clock values are injected; JSON parsing is CPython's. simnet's socket semantics are part of the trusted base.",
    technique="Lean 4 proof (decision logic, case analysis) + correspondence on an in-process sequential network",
    design="5/C09"),
+ 'C10': dict(
+   text="Lean model of LoginReactor.react with explicit framing state (cipher on/off, threshold, forced vs queued writes, RSA and JSON-text extraction as parameters); theorems for ALL step lists (any order/length of server events and loop write phases): the encryption response is the last plaintext frame, carries rsa(secret)/rsa(token) (RSA law recovers them) and everything written later is encrypted; the announced threshold applies to every later frame; plugin requests are each answered once, in order, unsuccessfully absent a handler; success enters play; a disconnect always records LoginDisconnect(msg) or VersionMismatch(ver) exactly per the two 'Outdated' patterns and stops processing; join called iff online id and token, with the verification hash. Correspondence on the sequential simnet: independent server with textbook RSA and pure-Python AES-CFB8 over versions either side of 385/391/707; the string passed to join is also checked against the Lean SHA-1 hash (C17 link).",
+   note="RSA is a parameter with dec(enc m)=m; JSON parsing and the regex engine are CPython's (the regex is mirrored by an explicit recogniser proved equivalent to a declarative reading). Forced/queued is not observable at the server and is dropped from the comparison; ids of the 1.13 snapshots 385..390 come from pyCraft's own tables.",
+   technique="Lean 4 proof (invariants over arbitrary step lists) + correspondence on sequential simnet with an independent crypto peer",
+   design="5/C10"),
+ 'C11': dict(
+   text="Lean model of PlayingReactor.react and the NetworkingThread._run batching loop with the 300/50 caps as parameters and the shared packet counter; theorems for ALL inboxes and ALL caps (capR >= 1, proved sharp): termination, keep-alive replies = ids before the first disconnect in order exactly once, teleport confirm / position echo per version, spawned iff a position packet was processed, wire order, unknown packets delivered without reply and removable without effect, clean server disconnect (closed, exit callback once, no error, later events ignored), independence from the caps. Correspondence on the sequential simnet over all release protocols (independent id/layout table) plus rotating snapshots, histories up to 400 packets, compression on/off, peer closing or not.",
+   note="When the peer has already closed while more than one read batch is still unread, the client's own writes fail (EPIPE) before it reads the disconnect packet; that realistic limitation is outside the property's clause and the harness keeps closed-peer histories within the first batch. With the peer closed only 'the wire is a prefix' holds (also in the model).",
+   technique="Lean 4 proof (loop with measure, cap-independence) + correspondence on sequential simnet",
+   design="5/C11"),
  'C13': dict(
    text="Lean model of the four listener lists, call_packet (first matching type, callback once), _react and _write_packet; theorems for ALL hierarchies (cyclic or not), configurations and histories: call log = early matches ++ reaction ++ ordinary matches in registration order cut after the first ignore; exactly-once; ignore is local to the packet; early ignore suppresses reaction; outgoing early before the write and able to suppress it, ordinary after; the four-way registration target. Correspondence on the sequential simnet: random listener configurations over the real packet class hierarchy, login and play histories, client-written packets.",
    note="The built-in reaction is observed by wrapping (not replacing) the reactors' react methods; a non-IgnorePacket exception in a listener belongs to C14.",
